@@ -46,6 +46,71 @@ theorem createEnd_ok {s s' : State} {a : Nat} (h : createEnd s a = .ok s') :
       injection h with h
       exact ⟨c, hs, by simpa using hc, h.symm⟩
 
+theorem createFail_ok {s s' : State} {a : Nat} (h : createFail s a = .ok s') :
+    canAct s a ∧ s.spin = none ∧ s' = { s with
+      nH := s.nH + 1
+      hdl := upd s.hdl s.nH { freed := true, written := true }
+      freeLog := s.freeLog ++ [s.nH] } := by
+  unfold createFail at h
+  split at h
+  · cases h
+  · split at h
+    · cases h
+    · rename_i hc _ hs
+      injection h with h
+      exact ⟨by simpa using hc, hs, h.symm⟩
+
+theorem joinFail_ok {s s' : State} {a : Nat} {h : Nat} (hs : joinFail s a h = .ok s') :
+    canAct s a ∧ h < s.nH ∧ (s.hdl h).written = true ∧ (s.hdl h).freed = false ∧ (s.hdl h).joinable = true ∧
+    s' = { s with joinLog := s.joinLog ++ [(a, h, (s.hdl h).retCode)] } := by
+  unfold joinFail at hs
+  split at hs
+  · cases hs
+  · rename_i hg
+    simp only [not_or, Decidable.not_not] at hg
+    split at hs
+    · cases hs
+    · rename_i hf
+      split at hs
+      · cases hs
+      · rename_i hj; injection hs with hs
+        exact ⟨hg.1, hg.2.1, by simpa using hg.2.2, by simpa using hf, by simpa using hj, hs.symm⟩
+
+theorem tlsFail_ok {s s' : State} {t k : Nat} {g : Bool} (h : tlsFail s t k g = .ok s') :
+    canAct s t ∧ k ≠ 0 ∧ k < s.nK ∧ (s.key k).wrapperFreed = false ∧ (s.key k).published = none ∧
+    s' = { s with getLog := s.getLog ++ (if g then [(t, k, 0)] else []) } := by
+  unfold tlsFail at h
+  split at h
+  · cases h
+  · rename_i hg
+    simp only [not_or, Decidable.not_not] at hg
+    split at h
+    · cases h
+    · rename_i hw
+      split at h
+      · cases h
+      · rename_i hp
+        injection h with h
+        refine ⟨hg.1, hg.2.1, hg.2.2, by simpa using hw, hp, ?_⟩
+        cases g <;> simp at h ⊢ <;> exact h.symm
+
+theorem currentFail_ok {s s' : State} {t : Nat} (h : currentFail s t = .ok s') :
+    canAct s t ∧ (s.key 0).wrapperFreed = false ∧ s' = { s with
+      nH := s.nH + 1
+      hdl := upd s.hdl s.nH { freed := true, written := true }
+      freeLog := s.freeLog ++ [s.nH] } := by
+  unfold currentFail at h
+  split at h
+  · cases h
+  · rename_i hc
+    split at h
+    · cases h
+    · rename_i hw
+      split at h
+      · cases h
+      · injection h with h
+        exact ⟨by simpa using hc, by simpa using hw, h.symm⟩
+
 theorem spawn_ok {s s' : State} (h : spawn s = .ok s') :
     s' = { s with nT := s.nT + 1, thr := upd s.thr s.nT { phase := .running } } := by
   unfold spawn at h; injection h with h; exact h.symm
@@ -958,6 +1023,18 @@ theorem KInv.step {s s' : State} {e : Ev} (hk : KInv s) (hs : step s e = .ok s')
   | getLocal t k =>
     obtain ⟨n, _, _, _, _, hp, rfl⟩ := getLocal_ok hs
     exact hk.frame rfl rfl rfl rfl hk.tP (fun _ => rfl) (fun _ _ hv => .inl hv)
+  | createFail a =>
+    obtain ⟨_, _, rfl⟩ := createFail_ok hs
+    exact hk.frame rfl rfl rfl rfl hk.tP (fun _ => rfl) (fun _ _ hv => .inl hv)
+  | joinFail a h =>
+    obtain ⟨_, _, _, _, _, rfl⟩ := joinFail_ok hs
+    exact hk.frame rfl rfl rfl rfl hk.tP (fun _ => rfl) (fun _ _ hv => .inl hv)
+  | tlsFail t k g =>
+    obtain ⟨_, _, _, _, _, rfl⟩ := tlsFail_ok hs
+    exact hk.frame rfl rfl rfl rfl hk.tP (fun _ => rfl) (fun _ _ hv => .inl hv)
+  | currentFail t =>
+    obtain ⟨_, _, rfl⟩ := currentFail_ok hs
+    exact hk.frame rfl rfl rfl rfl hk.tP (fun _ => rfl) (fun _ _ hv => .inl hv)
 
 /-! ## `HInv`: handles, reference counts, threads, the library key's cells -/
 
@@ -1396,6 +1473,9 @@ theorem HInv.spawn_inv {s s' : State} (hi : HInv s) (hk : KInv s) (hs : spawn s 
     · subst e; simp at hh
     · rw [upd_ne _ _ e] at hh ⊢; exact hi.jC t h hh
 
+theorem nodup_snoc' {l : List Nat} {n : Nat} (h : l.Nodup) (hn : n ∉ l) : (l ++ [n]).Nodup := by
+  rw [List.nodup_append]; exact ⟨h, by simp, fun a ha b hb => by simp at hb; subst hb; intro e; subst e; exact hn ha⟩
+
 theorem HInv.lt_of_written {s : State} (hi : HInv s) {h : Nat} (hw : (s.hdl h).written = true) : h < s.nH := by
   apply Classical.byContradiction; intro hn
   rw [hi.hB h (by omega)] at hw; cases hw
@@ -1481,6 +1561,72 @@ theorem HInv.createBegin_inv {s s' : State} {a : Nat} {j n : Bool} (hi : HInv s)
     by_cases e : h = s.nH
     · subst e; simp; intro hm; have := (hi.fL s.nH).mp hm; rw [hnewH] at this; cases this
     · rw [upd_ne _ _ e]; exact hi.fL h
+
+/-- a block that takes the next handle id and is released at once (a creation / `p_uthread_current` that fails) -/
+theorem HInv.allocFreed {s : State} (hi : HInv s) : HInv { s with
+    nH := s.nH + 1, hdl := upd s.hdl s.nH { freed := true, written := true }, freeLog := s.freeLog ++ [s.nH] } := by
+  have hnewH := hi.hB s.nH (Nat.le_refl _)
+  have hnotin : s.nH ∉ s.freeLog := by
+    intro hm; have := (hi.fL s.nH).mp hm; rw [hnewH] at this; cases this
+  refine ⟨hi.k0, ?_, ?_, ?_, ?_, ?_, ?_, ?_, ?_, ?_, ?_, ?_, ?_, ?_, ?_, ?_, ?_, ?_⟩
+  · intro h hh; simp only at hh ⊢; rw [upd_ne _ _ (by omega)]; exact hi.hB h (by omega)
+  · exact hi.tT
+  · intro h; simp only
+    by_cases e : h = s.nH
+    · subst e; simp
+    · rw [upd_ne _ _ e]; exact hi.hR h
+  · intro h; simp only
+    by_cases e : h = s.nH
+    · subst e; simp
+    · rw [upd_ne _ _ e]; exact hi.hL h
+  · intro h; simp only
+    by_cases e : h = s.nH
+    · subst e; simp
+    · rw [upd_ne _ _ e]; exact hi.hU h
+  · intro h hh hw; simp only at hh hw ⊢
+    by_cases e : h = s.nH
+    · subst e; simp at hw
+    · rw [upd_ne _ _ e] at hw; exact hi.hS h (by omega) hw
+  · intro c hc; simp only at hc ⊢
+    have := hi.sC c hc
+    rw [upd_ne _ _ (by omega)]; exact ⟨by omega, this.2⟩
+  · intro t h hh; simp only at hh ⊢
+    have := hi.tH t h hh
+    rw [upd_ne _ _ (by omega)]; exact ⟨by omega, this.2⟩
+  · intro h hh; simp only at hh ⊢
+    by_cases e : h = s.nH
+    · subst e; simp at hh
+    · rw [upd_ne _ _ e] at hh ⊢; exact hi.hO h hh
+  · intro t h hh; simp only at hh ⊢
+    have := hi.tH t h hh
+    rw [upd_ne _ _ (by omega)]; exact hi.hW t h hh
+  · intro h; simp only
+    by_cases e : h = s.nH
+    · subst e; simp
+    · rw [upd_ne _ _ e]; exact hi.hJ h
+  · intro t hp; simp only at hp ⊢
+    obtain ⟨h, h1, h2⟩ := hi.tC t hp
+    have := hi.tH t h h1
+    exact ⟨h, h1, by rw [upd_ne _ _ (by omega)]; exact h2⟩
+  · exact hi.tR
+  · intro t m ho hv; simp only at ho hv ⊢
+    have := hi.lT t m ho hv
+    have hlt := hi.lt_of_written this.1
+    rw [upd_ne _ _ (by omega)]; exact this
+  · intro t h hh; simp only at hh ⊢
+    have := hi.tH t h hh
+    rw [upd_ne _ _ (by omega)]; exact hi.jC t h hh
+  · intro h; simp only
+    by_cases e : h = s.nH
+    · subst e; simp
+    · rw [upd_ne _ _ e, List.mem_append]; simp only [List.mem_singleton, e, or_false]; exact hi.fL h
+  · simp only; exact nodup_snoc' hi.fN hnotin
+
+theorem HInv.createFail_inv {s s' : State} {a : Nat} (hi : HInv s) (hs : createFail s a = .ok s') : HInv s' := by
+  obtain ⟨_, _, rfl⟩ := createFail_ok hs; exact hi.allocFreed
+
+theorem HInv.currentFail_inv {s s' : State} {t : Nat} (hi : HInv s) (hs : currentFail s t = .ok s') : HInv s' := by
+  obtain ⟨_, _, rfl⟩ := currentFail_ok hs; exact hi.allocFreed
 
 theorem HInv.createEnd_inv {s s' : State} {a : Nat} (hi : HInv s) (hs : createEnd s a = .ok s') : HInv s' := by
   obtain ⟨c, hspin, _, rfl⟩ := createEnd_ok hs
@@ -1782,6 +1928,14 @@ theorem HInv.step {s s' : State} {e : Ev} (hi : HInv s) (hk : KInv s) (hs : step
   | getLocal t k =>
     obtain ⟨n, _, _, _, _, _, rfl⟩ := getLocal_ok hs
     exact hi.logs _ _ _ _
+  | createFail a => exact hi.createFail_inv hs
+  | joinFail a h =>
+    obtain ⟨_, _, _, _, _, rfl⟩ := joinFail_ok hs
+    exact hi.logs _ _ _ _
+  | tlsFail t k g =>
+    obtain ⟨_, _, _, _, _, rfl⟩ := tlsFail_ok hs
+    exact hi.logs _ _ _ _
+  | currentFail t => exact hi.currentFail_inv hs
 
 /-- both invariants hold in every reachable state -/
 theorem Reach.inv {s : State} (h : Reach s) : KInv s ∧ HInv s := by
@@ -1891,6 +2045,10 @@ theorem FInv.step {s s' : State} {e : Ev} (hf : FInv s) (hi : HInv s) (hk : KInv
   | setLocal t k v => obtain ⟨n, _, _, _, _, _, rfl⟩ := setLocal_ok hs; exact hf
   | replaceLocal t k v => obtain ⟨n, _, _, _, _, _, rfl⟩ := replaceLocal_ok hs; exact hf
   | getLocal t k => obtain ⟨n, _, _, _, _, _, rfl⟩ := getLocal_ok hs; exact hf
+  | createFail a => obtain ⟨_, _, rfl⟩ := createFail_ok hs; exact FInvH.upd hf _ _ (by simp)
+  | joinFail a h => obtain ⟨_, _, _, _, _, rfl⟩ := joinFail_ok hs; exact hf
+  | tlsFail t k g => obtain ⟨_, _, _, _, _, rfl⟩ := tlsFail_ok hs; exact hf
+  | currentFail t => obtain ⟨_, _, rfl⟩ := currentFail_ok hs; exact FInvH.upd hf _ _ (by simp)
 
 theorem DReach.inv {s : State} (h : DReach s) : KInv s ∧ HInv s ∧ FInv s := by
   induction h with
@@ -2088,6 +2246,35 @@ theorem step_no_uaf {s : State} {e : Ev} (hf : FInv s) (hi : HInv s) (hk : KInv 
     · split at hs
       · rename_i e' hr; injection hs with hs; subst hs; exact resolve_no_uaf _ _ _ hr
       · cases hs
+  | createFail a =>
+    simp only [step, createFail] at hs
+    split at hs
+    · cases hs
+    · split at hs <;> cases hs
+  | joinFail a h' =>
+    simp only [step, joinFail] at hs
+    split at hs
+    · cases hs
+    · split at hs
+      · rename_i hfr
+        have hp' : (0 < (s.hdl h').userRefs ∨ ((s.hdl h').thread = a ∧ (s.hdl h').threadRef = true)) ∧ (s.hdl h').joined = false := hp
+        have : (s.hdl h').freed = false := hf.alive (hp'.1.imp id (·.2))
+        rw [this] at hfr; cases hfr
+      · split at hs <;> cases hs
+  | tlsFail t k g =>
+    simp only [step, tlsFail] at hs
+    split at hs
+    · cases hs
+    · split at hs
+      · cases hs
+      · split at hs <;> cases hs
+  | currentFail t =>
+    simp only [step, currentFail] at hs
+    split at hs
+    · cases hs
+    · split at hs
+      · cases hs
+      · split at hs <;> cases hs
 
 /-! ## what thread termination does to cells and to the notifier log -/
 
@@ -2380,6 +2567,10 @@ theorem valueOf_frame {s s' : State} {e : Ev} (hk : KInv s) (hs : step s e = .ok
     obtain ⟨n, _, _, _, _, hp, rfl⟩ := replaceLocal_ok hs
     exact (valueOf_store hk hp _).2 t k (by rintro ⟨rfl, rfl⟩; exact h2 v rfl)
   | getLocal t' k' => obtain ⟨n, _, _, _, _, _, rfl⟩ := getLocal_ok hs; rfl
+  | createFail a => obtain ⟨_, _, rfl⟩ := createFail_ok hs; rfl
+  | joinFail a h => obtain ⟨_, _, _, _, _, rfl⟩ := joinFail_ok hs; rfl
+  | tlsFail t' k' g => obtain ⟨_, _, _, _, _, rfl⟩ := tlsFail_ok hs; rfl
+  | currentFail t' => obtain ⟨_, _, rfl⟩ := currentFail_ok hs; rfl
 
 /-- only `replace_local` and thread termination call notifiers -/
 theorem dtorLog_frame {s s' : State} {e : Ev} (hs : step s e = .ok s')
@@ -2407,6 +2598,10 @@ theorem dtorLog_frame {s s' : State} {e : Ev} (hs : step s e = .ok s')
   | setLocal t' k' v => exact absurd rfl (h3 t' k' v)
   | replaceLocal t' k' v => exact absurd rfl (h1 t' k' v)
   | getLocal t' k' => obtain ⟨n, _, _, _, _, _, rfl⟩ := getLocal_ok hs; rfl
+  | createFail a => obtain ⟨_, _, rfl⟩ := createFail_ok hs; rfl
+  | joinFail a h => obtain ⟨_, _, _, _, _, rfl⟩ := joinFail_ok hs; rfl
+  | tlsFail t' k' g => obtain ⟨_, _, _, _, _, rfl⟩ := tlsFail_ok hs; rfl
+  | currentFail t' => obtain ⟨_, _, rfl⟩ := currentFail_ok hs; rfl
 
 /-! ## which steps free -/
 
@@ -2462,7 +2657,7 @@ theorem runDtors_free {t : Nat} : ∀ {l : List Nat} {s s' : State}, KInv s → 
 
 /-- handles are freed by `unref` — explicit, or by the library key's destructor at thread end — and by nothing else -/
 theorem freeLog_frame {s s' : State} {e : Ev} (hs : step s e = .ok s')
-    (h1 : ∀ a h, e ≠ .unref a h) (h2 : ∀ t, e ≠ .threadEnd t) : s'.freeLog = s.freeLog := by
+    (h1 : ∀ a h, e ≠ .unref a h) (h2 : ∀ t, e ≠ .threadEnd t) (h3 : ∀ a, e ≠ .createFail a) (h4 : ∀ t, e ≠ .currentFail t) : s'.freeLog = s.freeLog := by
   cases e with
   | spawn => have := spawn_ok hs; subst this; rfl
   | createBegin a j n => obtain ⟨_, _, rfl⟩ := createBegin_ok hs; rfl
@@ -2485,6 +2680,10 @@ theorem freeLog_frame {s s' : State} {e : Ev} (hs : step s e = .ok s')
   | setLocal t' k' v => obtain ⟨n, _, _, _, _, _, rfl⟩ := setLocal_ok hs; rfl
   | replaceLocal t' k' v => obtain ⟨n, _, _, _, _, _, rfl⟩ := replaceLocal_ok hs; rfl
   | getLocal t' k' => obtain ⟨n, _, _, _, _, _, rfl⟩ := getLocal_ok hs; rfl
+  | createFail a => exact absurd rfl (h3 a)
+  | joinFail a h => obtain ⟨_, _, _, _, _, rfl⟩ := joinFail_ok hs; rfl
+  | tlsFail t' k' g => obtain ⟨_, _, _, _, _, rfl⟩ := tlsFail_ok hs; rfl
+  | currentFail t' => exact absurd rfl (h4 t')
 
 
 /-! ## executable check of the discipline (for the non-vacuity examples) -/
@@ -2622,6 +2821,10 @@ theorem NInv.step {s s' : State} {e : Ev} (h : NInv s) (hk : KInv s) (hs : step 
   | setLocal t' k v => obtain ⟨n, _, _, _, _, _, rfl⟩ := setLocal_ok hs; exact h.frame rfl rfl rfl rfl
   | replaceLocal t' k v => obtain ⟨n, _, _, _, _, _, rfl⟩ := replaceLocal_ok hs; exact h.frame rfl rfl rfl rfl
   | getLocal t' k => obtain ⟨n, _, _, _, _, _, rfl⟩ := getLocal_ok hs; exact h.frame rfl rfl rfl rfl
+  | createFail a => obtain ⟨_, _, rfl⟩ := createFail_ok hs; exact h.frame rfl rfl rfl rfl
+  | joinFail a h' => obtain ⟨_, _, _, _, _, rfl⟩ := joinFail_ok hs; exact h.frame rfl rfl rfl rfl
+  | tlsFail t' k g => obtain ⟨_, _, _, _, _, rfl⟩ := tlsFail_ok hs; exact h.frame rfl rfl rfl rfl
+  | currentFail t' => obtain ⟨_, _, rfl⟩ := currentFail_ok hs; exact h.frame rfl rfl rfl rfl
 
 theorem Reach.ninv {s : State} (h : Reach s) : NInv s := by
   induction h with
